@@ -61,9 +61,9 @@ Section DomTree.
       (forall v, has_vertex t v = true <-> (v = r \/ In v (map fst m))) /\
       (forall d v, has_edge t d v = true <-> In (v, d) m).
   Proof.
-    intros Hm Hnd Hr Hvals. unfold compute_dominator_tree. rewrite Hm. cbn [bind].
+    intros Hm Hnd Hr Hvals. unfold compute_dominator_tree. rewrite Hm. cbn [bind]. unfold tree, null_vertex, null_edge, nmap in *.
     destruct (insert_vertex_inv (new : tree) r graph_inv_new eq_refl) as [t0 [Hr0 [Hgi0 [Hv0 He0]]]].
-    cbn [vindex null_vertex_Vertex] in *. rewrite Hr0.
+    cbn [vindex null_vertex_Vertex] in *. unfold tree, null_vertex, null_edge, nmap in *. rewrite Hr0. cbn [bind].
     assert (Hhv0 : forall v, has_vertex t0 v = (v =? r)).
     { intros v. unfold has_vertex. rewrite Hv0, nm_mem_insert. cbn. rewrite orb_false_r. reflexivity. }
     assert (Hmem : forall (l : list N) v, existsb (N.eqb v) l = true <-> In v l).
@@ -72,11 +72,11 @@ Section DomTree.
       - intros Hx. exists v. split; auto. apply N.eqb_refl. }
     assert (Hfold1 : fold_left (fun acc p => t <- acc ;; insert_vertex t (fst p)) m (Ok t0) =
                      fold_left (fun acc k => t <- acc ;; insert_vertex t k) (map fst m) (Ok t0)).
-    { generalize (Ok t0 : res tree). clear. induction m as [|p m IH]; intros acc; cbn; auto. }
+    { generalize (Ok t0 : res (graph N (N * N))). clear. induction m as [|p m IH]; intros acc; cbn; auto. }
     rewrite Hfold1.
     destruct (fold_insert_vertices (map fst m) t0 Hgi0 Hnd) as [t1 [Hf1 [Hgi1 [Hv1 He1]]]].
     { intros k Hk. rewrite Hhv0. apply N.eqb_neq. intros ->. contradiction. }
-    rewrite Hf1. cbn [bind].
+    unfold tree, null_vertex, null_edge, nmap in *. rewrite Hf1. cbn [bind].
     assert (Hhv1 : forall v, has_vertex t1 v = true <-> (v = r \/ In v (map fst m))).
     { intros v. rewrite Hv1, Hhv0, orb_true_iff, N.eqb_eq, Hmem. tauto. }
     assert (Hne1 : forall d v, has_edge t1 d v = false).
@@ -86,7 +86,7 @@ Section DomTree.
       - apply Hhv1. right. apply in_map_iff. exists (v, d). auto.
       - apply Hhv1. apply (Hvals v d Hin).
       - intros d'. apply Hne1. }
-    exists t2. split; [exact Hf2|]. split; [exact Hgi2|]. split.
+    unfold tree, null_vertex, null_edge, nmap in *. exists t2. split; [exact Hf2|]. split; [exact Hgi2|]. split.
     - intros v. unfold has_vertex. rewrite Hv2. apply Hhv1.
     - intros d v. rewrite He2, Hne1, orb_false_l, existsb_exists. split.
       + intros [[v' d'] [Hin Hq]]. cbn [fst snd] in Hq. apply andb_true_iff in Hq. destruct Hq as [Hq1 Hq2].
